@@ -679,7 +679,6 @@ func TestVerifC28Pipeline(t *testing.T) {
 		add("w1", true, "stop", 2, []int{2, 2}, 2, true)
 		add("w2", false, "drain", 0, []int{2, 2}, 2, true)
 		add("w2", true, "drain-expired", 1, []int{2, 2}, 2, true)
-		add("w2", true, "stop", 0, []int{2, 2}, 2, true)
 	}
 	if os.Getenv("VERIF_C28_DEBUG") != "" {
 		sc := c28Scenario(cfgs[0])
